@@ -2,4 +2,4 @@
 # replay without the explorer; run from this directory
 cd "$(dirname "$0")"
 # the recipes name the operands: P s k d = (-1)^s (2^k+d); D s n p = digit pattern p over n 16-bit places
-/verif/bin/vcheck harness c11 scan 70 0 1 | head -50
+/verif/bin/vcheck harness c11 power 70 0 1 | head -50
